@@ -82,11 +82,13 @@ pub fn hash_str(s: &str) -> u64 {
 }
 
 pub fn policy_for(seed: u64) -> Policy {
-    match seed % 4 {
+    match seed % 6 {
         0 => Policy::Random,
         1 => Policy::Sticky(128),
         2 => Policy::Sticky(224),
-        _ => Policy::Pct { changes: 3, horizon: 2000 },
+        3 => Policy::Pct { changes: 3, horizon: 2000 },
+        4 => Policy::Stall { p: 4, max: 400 },
+        _ => Policy::Stall { p: 16, max: 60 },
     }
 }
 
@@ -95,6 +97,7 @@ pub fn policy_name(p: Policy) -> String {
         Policy::Random => "random".into(),
         Policy::Sticky(x) => format!("sticky({}/256)", x),
         Policy::Pct { changes, horizon } => format!("pct(d={},h={})", changes, horizon),
+        Policy::Stall { p, max } => format!("stall({}/256,{} steps)", p, max),
     }
 }
 
